@@ -114,6 +114,48 @@ partial def exprOfJ (j : Json) : Except String Expr := do
     | none => throw s!"bad rel {r}"
   | t => throw s!"bad expr tag {t}"
 
+partial def cexprOfJ (j : Json) : Except String CExpr := do
+  let a ← j.getArr?
+  let tag ← (a[0]?.getD Json.null).getStr?
+  let arg (i : Nat) : Except String CExpr := cexprOfJ (a[i]?.getD Json.null)
+  match tag with
+  | "int" => do
+    let m ← (a[1]?.getD Json.null).getStr?
+    match m.toNat? with
+    | some mm => pure (.int mm)
+    | none => throw s!"bad int {m}"
+  | "num" => do
+    let m ← (a[1]?.getD Json.null).getStr?
+    let e ← (a[2]?.getD Json.null).getInt?
+    match m.toNat? with
+    | some mm => pure (.num mm e)
+    | none => throw s!"bad mantissa {m}"
+  | "var" => do pure (.var (← (a[1]?.getD Json.null).getStr?))
+  | "pi" => pure .pi
+  | "neg" => do pure (.neg (← arg 1))
+  | "add" => do pure (.add (← arg 1) (← arg 2))
+  | "sub" => do pure (.sub (← arg 1) (← arg 2))
+  | "mul" => do pure (.mul (← arg 1) (← arg 2))
+  | "div" => do pure (.div (← arg 1) (← arg 2))
+  | "pow" => do pure (.pow (← arg 1) (← arg 2))
+  | "fmod" => do pure (.fmod (← arg 1) (← arg 2))
+  | "cmod" => do pure (.imod (← arg 1) (← arg 2))
+  | "and" => do pure (.and (← arg 1) (← arg 2))
+  | "or" => do pure (.or (← arg 1) (← arg 2))
+  | "not" => do pure (.not (← arg 1))
+  | "cond" => do pure (.cond (← arg 1) (← arg 2) (← arg 3))
+  | "fn" => do
+    let f ← (a[1]?.getD Json.null).getStr?
+    match fnOfS f with
+    | some fn => pure (.fn fn (← arg 2))
+    | none => throw s!"bad fn {f}"
+  | "rel" => do
+    let r ← (a[1]?.getD Json.null).getStr?
+    match relOfS r with
+    | some rr => pure (.rel rr (← arg 2) (← arg 3))
+    | none => throw s!"bad rel {r}"
+  | t => throw s!"bad C expr tag {t}"
+
 def arrOfS : String → Option Arr
   | "states" => some .states | "parameters" => some .params | "missing_variables" => some .missing | _ => none
 
@@ -131,6 +173,29 @@ def stmtOfJ (j : Json) : Except String Stmt := do
   | "D" => do pure (.define (← (a[1]?.getD Json.null).getStr?) (← exprOfJ (a[2]?.getD Json.null)))
   | "S" => do pure (.store (← (a[1]?.getD Json.null).getNat?) (← exprOfJ (a[2]?.getD Json.null)))
   | t => throw s!"bad stmt tag {t}"
+
+def cstmtOfJ (j : Json) : Except String CStmt := do
+  let a ← j.getArr?
+  let tag ← (a[0]?.getD Json.null).getStr?
+  match tag with
+  | "U" => do
+    let x ← (a[1]?.getD Json.null).getStr?
+    let arr ← (a[2]?.getD Json.null).getStr?
+    let i ← (a[3]?.getD Json.null).getNat?
+    match arrOfS arr with
+    | some ar => pure (.unpack x ar i)
+    | none => throw s!"bad array {arr}"
+  | "D" => do pure (.define (← (a[1]?.getD Json.null).getStr?) (← cexprOfJ (a[2]?.getD Json.null)))
+  | "S" => do pure (.store (← (a[1]?.getD Json.null).getNat?) (← cexprOfJ (a[2]?.getD Json.null)))
+  | t => throw s!"bad stmt tag {t}"
+
+def bitsOfJ (j : Json) : Except String (List Float) := do
+  let a ← j.getArr?
+  a.toList.mapM fun b => do
+    let s ← b.getStr?
+    match s.toNat? with | some n => pure (Float.ofBits n.toUInt64) | none => throw "bad bits"
+
+def tyName : CTy → String | .int => "int" | .bool => "bool" | .dbl => "double"
 
 def strsOfJ (j : Json) : Except String (List String) := do
   let a ← j.getArr?
@@ -215,7 +280,14 @@ def handle (req : Json) : Except String Json := do
       let layJ := match lay with
         | some L => Json.mkObj [("state", jstrs L.state), ("param", jstrs L.param), ("monitor", jstrs L.monitor), ("missing", jstrs L.missing)]
         | none => Json.null
-      pure (Json.mkObj ([("ok", Json.bool true), ("layout", layJ),
+      -- the edge-list formulation (object of the theorems) against the literal mirror of graphlib
+      let addsOf (ru : Bool) : List (Gx.Name × List Gx.Name) :=
+        let used := Impl.mentioned m
+        let inters := if ru then m.inters.filter fun a => used.contains a.1 else m.inters
+        (inters ++ m.derivs.map fun d => (d.1, d.2.2)).map fun a => (a.1, Impl.sortNames (π a.1 a.2))
+      let topoAgree := staticOrder (addsOf false) == staticOrderRef (addsOf false) &&
+        staticOrder (addsOf true) == staticOrderRef (addsOf true)
+      pure (Json.mkObj ([("ok", Json.bool true), ("layout", layJ), ("topo_ref_agrees", Json.bool topoAgree),
         ("sorted_removed", match Impl.sortedAssignments m π true with | some l => jstrs l | none => Json.null),
         ("mentioned", jstrs (Impl.mentioned m))] ++ modelJ ld))
   | "gen" =>
@@ -321,6 +393,35 @@ def handle (req : Json) : Except String Json := do
             | some L => Json.mkObj [("state", jstrs L.state), ("param", jstrs L.param), ("monitor", jstrs L.monitor), ("missing", jstrs L.missing)]
             | none => Json.null)]
       pure (Json.mkObj [("ok", Json.bool true), ("sub", part subNames), ("rest", part restNames)])
+  | "ctyped" =>
+    -- typing verdicts for a translated C function body
+    let progJ ← (← req.getObjVal? "prog").getArr?
+    let prog ← progJ.toList.mapM cstmtOfJ
+    let exprs := prog.filterMap fun st => match st with
+      | .define _ e => some e | .store _ e => some e | _ => none
+    pure (Json.mkObj [("ok", Json.bool true),
+      ("all_real", Json.bool (prog.all CStmt.real)),
+      ("real", Json.arr (prog.map fun st => Json.bool st.real).toArray),
+      ("types", jstrs (exprs.map fun e => tyName (ctype e)))])
+  | "evalc" =>
+    -- run a translated C function body with C typing in float64
+    let progJ ← (← req.getObjVal? "prog").getArr?
+    let prog ← progJ.toList.mapM cstmtOfJ
+    let st ← bitsOfJ (← req.getObjVal? "states")
+    let pa ← bitsOfJ (← req.getObjVal? "parameters")
+    let mi ← bitsOfJ (← req.getObjVal? "missing_variables")
+    let sc ← bitsOfJ (← req.getObjVal? "scalars")   -- [t] or [t, dt]
+    let inp : Inputs Float := fun a i => match a with
+      | .states => st[i]? | .params => pa[i]? | .missing => mi[i]?
+    let t := sc[0]?.getD 0
+    let env0 : List (Gx.Name × Float) := (match sc[1]? with | some dt => [("dt", dt)] | none => []) ++ [("t", t), ("time", t)]
+    match execC NumFloat fmodFloat inp ⟨env0, []⟩ prog with
+    | none => pure (Json.mkObj [("ok", Json.bool true), ("out", Json.null)])
+    | some s =>
+      let slots := (s.out.map (·.1)).eraseDups
+      pure (Json.mkObj [("ok", Json.bool true),
+        ("out", Json.arr (slots.map fun (i : Nat) => Json.arr #[Json.num (i : Nat), match s.result i with
+          | some f => jstr (floatHex f) | none => Json.null]).toArray)])
   | "topo" =>
     let addsJ ← (← req.getObjVal? "adds").getArr?
     let adds ← addsJ.toList.mapM fun a => do
@@ -329,7 +430,8 @@ def handle (req : Json) : Except String Json := do
       let ds ← strsOfJ (p[1]?.getD Json.null)
       pure (n, ds)
     pure (Json.mkObj [("ok", Json.bool true),
-      ("order", match staticOrder adds with | some l => jstrs l | none => Json.null)])
+      ("order", match staticOrder adds with | some l => jstrs l | none => Json.null),
+      ("order_ref", match staticOrderRef adds with | some l => jstrs l | none => Json.null)])
   | o => throw s!"unknown op {o}"
 
 partial def loop (hin hout : IO.FS.Stream) : IO Unit := do
